@@ -8,6 +8,8 @@ import (
 	"fmt"
 	"strings"
 	"unsafe"
+
+	"github.com/pandatix/go-cvss/verifsim/rt"
 )
 
 type o1Entry struct {
@@ -112,6 +114,7 @@ func calmEval(r *rec) string {
 		a.FromBytes(obj, r.before)
 	}
 	var out opOut
+	rt.CalmReset()
 	callOp(a, r.op, obj, nil, &out)
 	after := ""
 	if obj != nil {
